@@ -567,6 +567,7 @@ package sam
 //@ func ToPairAlign spawns
 //@   modifies everything
 //@   after if#2: assert [c18.oneref] len(refs) == 1
+//@   before call:ReadEncodeAlignmentToList#1: assert [c02.reference.soft] arg(0) == ref && arg(1) == false
 //@   after if#3: assert [c18.window] 1 <= trimStart && trimStart <= trimEnd && trimEnd <= len(refSeq)
 //@   after assign:cWriteDone#1: assume [env.errors] forallint(k, envat(cErr, k) != nil)
 //@   ghost gErrSeen bool = false
@@ -600,7 +601,20 @@ package sam
 //@   ensures [local.c18.error.returned] implies(gErrSeen, result != nil)
 //@ func Variants spawns
 //@   modifies everything
+//@   # C14/C04: the regions are built for the reference the mutations are called against: RegionsFromGenbank gets the length,
+//@   # RegionsFromGFF the text, of Degap(Decode(ref)) - the results of those two (contracted) calls, nothing else
+//@   ghost gDecGb fastaio.FastaRecord = fastaio.FastaRecord{}
+//@   ghost gDegGb fastaio.FastaRecord = fastaio.FastaRecord{}
+//@   ghost gDecGff fastaio.FastaRecord = fastaio.FastaRecord{}
+//@   ghost gDegGff fastaio.FastaRecord = fastaio.FastaRecord{}
+//@   after call:Decode#1: do gDecGb = ret()
+//@   after call:Degap#1: do gDegGb = ret()
+//@   after call:Decode#2: do gDecGff = ret()
+//@   after call:Degap#2: do gDegGff = ret()
+//@   before call:RegionsFromGenbank#1: assert [c14.reference.degapped.gb] arg(1) == len(gDegGb.Seq) && gDecGb.ID == ref.ID
+//@   before call:RegionsFromGFF#1: assert [c14.reference.degapped.gff] arg(1) == gDegGff.Seq && gDecGff.ID == ref.ID
 //@   after if#3: assert [c18.oneref] len(refs) == 1
+//@   before call:ReadEncodeAlignmentToList#1: assert [c11.reference.soft] arg(0) == refIn && arg(1) == false
 //@   # the rest of the orchestration in spawns mode (model and assumptions: see closest.Closest)
 //@   after assign:cWriteDone#1: assume [env.errors] forallint(k, envat(cErr, k) != nil)
 //@   ghost gErrSeen bool = false
@@ -683,6 +697,11 @@ package sam
 //@ # equal lengths. The global statement (reference row without '-' is the reference, ...) is checked bounded: oracle sam_topa.
 //@ func blockToSeqPair
 //@   modifies everything
+//@   # C05/C02: the gap run of an insertion goes in at the insertion's reference coordinate shifted by the gaps ALREADY put
+//@   # into that row by earlier insertions (the row's offset at the start of this step); per insertion a row's offset grows
+//@   # by exactly the insertion's length (always for the row that carries the insertion) or - for a row that ends before the
+//@   # insertion point - stays as it was
+//@   after assign:at#1: assert [c05.insert.at] at == insertion.start + pre(5, offsets[j])
 //@   requires len(alignedBlock.seqpairArray) >= 1 && len(alignedBlock.cigarArray) == len(alignedBlock.seqpairArray) && len(alignedBlock.posArray) == len(alignedBlock.seqpairArray)
 //@   requires forall(a, 0, len(alignedBlock.seqpairArray), len(alignedBlock.seqpairArray[a].ref) == len(alignedBlock.seqpairArray[a].query))
 //@   requires forall(a, 0, len(alignedBlock.posArray), alignedBlock.posArray[a] >= 0)
@@ -705,6 +724,7 @@ package sam
 //@     invariant forall(a, 0, len(offsets), offsets[a] >= 0)
 //@     invariant forall(a, 0, len(refSeqArray), len(refSeqArray[a]) == len(queSeqArray[a]))
 //@     invariant insertion.start >= 0 && insertion.length >= 0
+//@     invariant [c05.offset.step] forall(a, 0, range_i, offsets[a] == pre(4, offsets[a]) + insertion.length || (offsets[a] == pre(4, offsets[a]) && a != rowNumber)) && forall(a, range_i, len(offsets), offsets[a] == pre(4, offsets[a]))
 //@   loop 7:
 //@     invariant max >= 0 && forall(a, 0, range_i, len(refSeqArray[a]) <= max)
 //@   loop 8:
@@ -716,6 +736,9 @@ package sam
 //@     invariant freshslice(QBlock) && len(QBlock) == range_i && forall(a, 0, range_i, len(QBlock[a]) == max)
 //@     invariant len(queSeqArray) == len(alignedBlock.seqpairArray) && forall(a, 0, len(queSeqArray), len(queSeqArray[a]) <= max)
 //@   ensures [rows.equal] len(result.ref) == len(result.query)
+//@   # C11: both rows are built by this call - in particular the reference row never IS the caller's reference buffer, which
+//@   # `sam variants` goes on to encode in place
+//@   ensures [rows.fresh] freshslice(result.ref) && freshslice(result.query) && disjoint(result.ref, result.query)
 //@   after call:Sort#1: assert [hint.perm] forall(a, 0, len(insertions), 0 <= sortperm(a) && sortperm(a) < len(insertions) && insertions[a].start >= 0 && insertions[a].length >= 0)
 //@   after append#4: assert [c02.insert.ref] len(newRef) == len(refSeqArray[j]) + insertion.length && forall(k, 0, at, newRef[k] == refSeqArray[j][k]) && forall(k, 0, insertion.length, newRef[at + k] == '-') && forall(k, at, len(refSeqArray[j]), newRef[insertion.length + k] == refSeqArray[j][k])
 //@   after append#7: assert [c02.insert.query] len(newQue) == len(queSeqArray[j]) + insertion.length && forall(k, 0, at, newQue[k] == queSeqArray[j][k]) && forall(k, 0, insertion.length, newQue[at + k] == '-') && forall(k, at, len(queSeqArray[j]), newQue[insertion.length + k] == queSeqArray[j][k])
@@ -841,5 +864,6 @@ package sam
 //@   before call:getOneLinePlusRef#2: assert [c02.record.rows.noins] arg(0) == line && sameslice(arg(1), ref) && arg(2) == false && omitIns
 //@   before call:blockToSeqPair#1: assert [c02.block] sameslice(arg(0).seqpairArray, seqs) && sameslice(arg(0).cigarArray, cigars) && sameslice(arg(0).posArray, positions) && sameslice(arg(1), ref) && len(seqs) == len(group.records)
 //@   before send#2: assert [c02.pair] pair.idx == group.idx
+//@   before send#2: assert [c11.pair.rows.own] freshslice(pair.ref) && freshslice(pair.query) && disjoint(pair.ref, pair.query)
 //@   before send#4: assert [c02.pair.noins] pair.idx == group.idx && sameslice(pair.ref, ref)
 //@   ensures len(sent(cPair)) == len(recv(cSR)) && forall(t, 0, len(recv(cSR)), sent(cPair)[t].idx == recv(cSR)[t].idx)
